@@ -5,6 +5,7 @@
   accumulated exactly the source text from its start to the scan position.
 -/
 import XonshVerif.Proofs.TokOrder
+import XonshVerif.Proofs.RegexSuffix
 set_option linter.unusedSimpArgs false
 namespace XV.Tz
 open XV XV.Rx
@@ -17,8 +18,17 @@ structure FT (lines : List (List Nat)) (st : TState) : Prop where
   line : LineOK lines st
   top : ∀ p rest, st.endProgs = p :: rest → isB p = false → TextAt lines p (cur st)
 
-/-- all FSTRING_MIDDLE tokens of a list are source slices -/
-def MidOK (lines : List (List Nat)) (ts : List Tok5) : Prop := ∀ t ∈ ts, t.ty = .FSTRING_MIDDLE → TokSrc lines t
+/-- the token kinds this file is about: the parts of f-strings, and all operators (the f-string scanner emits `{` / `}`) -/
+def FsTy (t : Tok5) : Prop := t.ty = .FSTRING_MIDDLE ∨ t.ty = .FSTRING_END ∨ t.ty = .OP
+
+/-- all FSTRING_MIDDLE / FSTRING_END / OP tokens of a list are source slices -/
+def MidOK (lines : List (List Nat)) (ts : List Tok5) : Prop := ∀ t ∈ ts, FsTy t → TokSrc lines t
+
+/-- what the patterns must guarantee for the delimiters: a match of the scanners ends with the brace / the closing quote -/
+structure FstrEnds (P : Pats) : Prop where
+  lbrace : ∀ q, endsWith (lookupPat P.startLBrace q) [123] = true
+  rbrace : endsWith P.endRBrace [125] = true
+  endq : ∀ tok, endsWith (lookupPat P.endpats (strOfCps (quoteOf tok))) (quoteOf tok) = true
 
 theorem MidOK.nil (lines : List (List Nat)) : MidOK lines [] := by intro t ht; cases ht
 theorem MidOK.append {lines : List (List Nat)} {a b : List Tok5} (ha : MidOK lines a) (hb : MidOK lines b) : MidOK lines (a ++ b) := by
@@ -26,7 +36,7 @@ theorem MidOK.append {lines : List (List Nat)} {a b : List Tok5} (ha : MidOK lin
   rcases List.mem_append.mp ht with h | h
   · exact ha t h hty
   · exact hb t h hty
-theorem MidOK.of_none {lines : List (List Nat)} {ts : List Tok5} (h : ∀ t ∈ ts, t.ty ≠ .FSTRING_MIDDLE) : MidOK lines ts :=
+theorem MidOK.of_none {lines : List (List Nat)} {ts : List Tok5} (h : ∀ t ∈ ts, ¬ FsTy t) : MidOK lines ts :=
   fun t ht hty => absurd hty (h t ht)
 
 theorem TextAt.restart (lines : List (List Nat)) (q : EndProg) (c : Pos) :
@@ -67,11 +77,73 @@ theorem emitMiddle_ft (lines : List (List Nat)) (st : TState) (me : Nat) (prog :
   · exact MidOK.nil _
 
 
-theorem MidOK.emit_then {lines : List (List Nat)} {a : List Tok5} {t : Tok5} (ha : MidOK lines a) (ht : t.ty ≠ .FSTRING_MIDDLE) :
+theorem MidOK.emit_then {lines : List (List Nat)} {a : List Tok5} {t : Tok5} (ha : MidOK lines a) (ht : FsTy t → TokSrc lines t) :
     MidOK lines (a ++ [t]) :=
-  MidOK.append ha (MidOK.of_none (by intro u hu; simp only [List.mem_singleton] at hu; subst hu; exact ht))
+  MidOK.append ha (by intro u hu; simp only [List.mem_singleton] at hu; subst hu; exact ht)
 
-theorem handleFstringProgs_ft (lines : List (List Nat)) (E : Env) (P : Pats) (hF : FstrLen P) (hw : Pos) (st st' : TState)
+/-- a text on the current line is the source between its coordinates -/
+theorem slice_src (lines : List (List Nat)) (st : TState) (s e : Nat) (hl : LineOK lines st) (hse : s ≤ e) (hemax : e ≤ st.max) :
+    slice st.line s e = srcText lines ⟨st.lnum, s⟩ ⟨st.lnum, e⟩ := by
+  have h0 : srcText lines ⟨st.lnum, s⟩ ⟨st.lnum, s⟩ = [] := by simp [srcText]
+  have := srcText_append lines ⟨st.lnum, s⟩ st.lnum st.line.toList hl.one hl.cur s e hse
+    (by rw [hl.max] at hemax; simpa using hemax) (Nat.le_refl _)
+  rw [h0, List.nil_append] at this
+  rw [slice_eq, this]
+
+/-- a delimiter token of the f-string scanner: its text is the last `|w|` characters of the match -/
+theorem delim_src (lines : List (List Nat)) (st : TState) (e : Nat) (w : List Nat) (hl : LineOK lines st)
+    (hwe : w.length ≤ e) (hemax : e ≤ st.max) (hsuf : (st.line.extract (e - w.length) e).toList = w)
+    (t : Tok5) (hs : t.start = ⟨st.lnum, e - w.length⟩) (hp : t.stop = ⟨st.lnum, e⟩) (hstr : t.str = w) : TokSrc lines t := by
+  unfold TokSrc
+  rw [hs, hp, hstr, ← slice_src lines st (e - w.length) e hl (by omega) hemax]
+  exact hsuf.symm
+
+theorem emitMiddle_pos (st : TState) (me : Nat) (prog : EndProg) (rest : List EndProg) (hp : st.endProgs = prog :: rest) (hpe : st.pos ≤ me) :
+    (emitMiddle st me prog).2.pos = me ∧ (emitMiddle st me prog).2.lnum = st.lnum := by
+  unfold emitMiddle
+  split
+  · unfold TState.progToken; rw [hp]; exact ⟨rfl, rfl⟩
+  · rename_i hno
+    simp only [Bool.or_eq_true, decide_eq_true_eq, not_or] at hno
+    exact ⟨by show st.pos = me; omega, rfl⟩
+
+/-- what a named match of the f-string scanner ends with -/
+theorem fstr_match_ends (P : Pats) (hE : FstrEnds P) (prog : EndProg) (hok : ProgOK prog) (group : String) (r : Re)
+    (hmem : (group, r) ∈ patBranches P prog.pat) :
+    (group = "End" → endsWith r prog.quote = true) ∧ (group = "LBrace" → endsWith r [123] = true) ∧
+    (group = "RBrace" → endsWith r [125] = true) := by
+  obtain ⟨hk, hq⟩ := hok
+  cases hpat : prog.pat with
+  | endpat q =>
+    rw [hpat] at hmem
+    simp only [patBranches, List.mem_singleton, Prod.mk.injEq] at hmem
+    refine ⟨?_, ?_, ?_⟩ <;> (intro hg; rw [hmem.1] at hg; exact absurd hg (by decide))
+  | empty =>
+    rw [hpat] at hmem
+    simp only [patBranches, List.mem_singleton, Prod.mk.injEq] at hmem
+    refine ⟨?_, ?_, ?_⟩ <;> (intro hg; rw [hmem.1] at hg; exact absurd hg (by decide))
+  | rbrace =>
+    rw [hpat] at hmem
+    simp only [patBranches, List.mem_singleton, Prod.mk.injEq] at hmem
+    refine ⟨?_, ?_, fun _ => by rw [hmem.2]; exact hE.rbrace⟩ <;> (intro hg; rw [hmem.1] at hg; exact absurd hg (by decide))
+  | fstr q =>
+    have hM : isM prog = true := by
+      unfold kindOK at hk; rw [hpat] at hk
+      unfold isM
+      cases hm : prog.mode <;> simp [hm] at hk ⊢
+    rw [hpat] at hmem
+    simp only [patBranches, List.mem_cons, Prod.mk.injEq, List.not_mem_nil, or_false] at hmem
+    rcases hmem with ⟨hg, hr⟩ | ⟨hg, hr⟩
+    · refine ⟨?_, fun _ => by rw [hr]; exact hE.lbrace q, ?_⟩ <;> (intro hg2; rw [hg] at hg2; exact absurd hg2 (by decide))
+    · obtain ⟨hp2, tok, htok⟩ := hq hM
+      rw [hpat] at hp2
+      injection hp2 with hp2
+      refine ⟨fun _ => ?_, ?_, ?_⟩
+      · rw [hr, hp2, htok]; exact hE.endq tok
+      · intro hg2; rw [hg] at hg2; exact absurd hg2 (by decide)
+      · intro hg2; rw [hg] at hg2; exact absurd hg2 (by decide)
+
+theorem handleFstringProgs_ft (lines : List (List Nat)) (E : Env) (P : Pats) (hF : FstrLen P) (hE : FstrEnds P) (hw : Pos) (st st' : TState)
     (ts : List Tok5) (mt : Bool) (hI : OInv hw st) (hft : FT lines st)
     (h : handleFstringProgs E P st = .ok (ts, st', mt)) : MidOK lines ts ∧ FT lines st' := by
   obtain ⟨hadv, hle'⟩ := handleFstringProgs_adv E P st st' ts mt hft.line.max hft.line.pos h
@@ -86,7 +158,8 @@ theorem handleFstringProgs_ft (lines : List (List Nat)) (E : Env) (P : Pats) (hF
     · injection h with h; injection h with h1 h; injection h with h2 h3; subst h1; subst h2
       exact ⟨MidOK.nil _, hft⟩
     · rename_i group e hm
-      obtain ⟨r, hmem, hlen⟩ := matchBranches_minLen _ _ _ _ _ _ _ hm
+      obtain ⟨r, hmem, hmat⟩ := matchBranches_sound _ _ _ _ _ _ _ hm
+      have hlen := matchAt_minLen _ _ _ _ _ _ hmat
       have hbd : e ≤ st.max := by rw [hft.line.max]; exact matchBranches_le _ _ _ _ _ _ _ (by rw [← hft.line.max]; exact hft.line.pos) hm
       have hsh : Shape (prog :: rest) := hprogs ▸ hI.shape
       simp only [] at h
@@ -95,16 +168,20 @@ theorem handleFstringProgs_ft (lines : List (List Nat)) (E : Env) (P : Pats) (hF
         exact ⟨MidOK.nil _, hft⟩
       · rename_i hne
         have hfacts := fstr_match_facts P hF prog hsh.ok group r hmem hne
+        have hends := fstr_match_ends P hE prog hsh.ok group r hmem
         split at h
-        · rename_i hE
+        · rename_i hEg
           injection h with h; injection h with h1 h; injection h with h2 h3; subst h1; subst h2
           have ⟨hM, hql⟩ : isM prog = true ∧ prog.quote.length ≤ minLen r := by
             rcases hfacts with ⟨_, a, b⟩ | ⟨hg, _, _⟩ | ⟨hg, _, _⟩
             · exact ⟨a, b⟩
-            · rw [hE] at hg; exact absurd hg (by decide)
-            · rw [hE] at hg; exact absurd hg (by decide)
+            · rw [hEg] at hg; exact absurd hg (by decide)
+            · rw [hEg] at hg; exact absurd hg (by decide)
           have htext := hft.top prog rest hprogs (isM_notB hM)
-          refine ⟨MidOK.emit_then (emitMiddle_ft lines st _ prog rest hft.line hprogs htext (by omega) (by omega)) (by simp), hl', ?_⟩
+          obtain ⟨hsuf1, hsuf2⟩ := matchAt_endsWith _ _ _ _ _ _ _ (hends.1 hEg) hmat
+          obtain ⟨ep1, ep2⟩ := emitMiddle_pos st (e - prog.quote.length) prog rest hprogs (by omega)
+          refine ⟨MidOK.emit_then (emitMiddle_ft lines st _ prog rest hft.line hprogs htext (by omega) (by omega))
+            (fun _ => delim_src lines st e prog.quote hft.line hsuf1 hbd hsuf2 _ (by simp only [ep1, ep2]) (by simp only [ep2]) rfl), hl', ?_⟩
           intro q more hq hnb
           obtain ⟨p', hp', _⟩ := emitMiddle_stack st (e - prog.quote.length) prog prog rest hprogs
           change ((emitMiddle st (e - prog.quote.length) prog).2.popMode none).endProgs = q :: more at hq
@@ -120,7 +197,10 @@ theorem handleFstringProgs_ft (lines : List (List Nat)) (E : Env) (P : Pats) (hF
               · exact ⟨a, b⟩
               · rw [hL] at hg; exact absurd hg (by decide)
             have htext := hft.top prog rest hprogs (isM_notB hM)
-            refine ⟨MidOK.emit_then (emitMiddle_ft lines st _ prog rest hft.line hprogs htext (by omega) (by omega)) (by simp), hl', ?_⟩
+            obtain ⟨hsuf1, hsuf2⟩ := matchAt_endsWith _ _ _ _ _ _ _ (hends.2.1 hL) hmat
+            obtain ⟨ep1, ep2⟩ := emitMiddle_pos st (e - 1) prog rest hprogs (by omega)
+            refine ⟨MidOK.emit_then (emitMiddle_ft lines st _ prog rest hft.line hprogs htext (by omega) (by omega))
+              (fun _ => delim_src lines st e [123] hft.line hsuf1 hbd hsuf2 _ (by simp only [ep1, ep2, List.length_singleton]) (by simp only [ep2]) rfl), hl', ?_⟩
             intro q more hq hnb
             simp only [TState.addProg, List.cons.injEq] at hq
             obtain ⟨hq1, _⟩ := hq
@@ -134,7 +214,15 @@ theorem handleFstringProgs_ft (lines : List (List Nat)) (E : Env) (P : Pats) (hF
               · exact absurd hg hnL
               · exact ⟨a, b⟩
             have htext := hft.top prog rest hprogs (isC_notB hC)
-            refine ⟨MidOK.emit_then (emitMiddle_ft lines st _ prog rest hft.line hprogs htext (by omega) (by omega)) (by simp), hl', ?_⟩
+            have hRg : group = "RBrace" := by
+              rcases hfacts with ⟨hg, _, _⟩ | ⟨hg, _, _⟩ | ⟨hg, _, _⟩
+              · exact absurd hg hnE
+              · exact absurd hg hnL
+              · exact hg
+            obtain ⟨hsuf1, hsuf2⟩ := matchAt_endsWith _ _ _ _ _ _ _ (hends.2.2 hRg) hmat
+            obtain ⟨ep1, ep2⟩ := emitMiddle_pos st (e - 1) prog rest hprogs (by omega)
+            refine ⟨MidOK.emit_then (emitMiddle_ft lines st _ prog rest hft.line hprogs htext (by omega) (by omega))
+              (fun _ => delim_src lines st e [125] hft.line hsuf1 hbd hsuf2 _ (by simp only [ep1, ep2, List.length_singleton]) (by simp only [ep2]) rfl), hl', ?_⟩
             obtain ⟨p', hp', _⟩ := emitMiddle_stack st (e - 1) prog prog rest hprogs
             cases rest with
             | nil =>
@@ -160,7 +248,7 @@ theorem handleFstringProgs_ft (lines : List (List Nat)) (E : Env) (P : Pats) (hF
               exact TextAt.restart lines m _
 
 
-theorem endProgStep_ft (lines : List (List Nat)) (E : Env) (P : Pats) (hF : FstrLen P) (hw : Pos) (st st' : TState) (prog : EndProg)
+theorem endProgStep_ft (lines : List (List Nat)) (E : Env) (P : Pats) (hF : FstrLen P) (hE : FstrEnds P) (hw : Pos) (st st' : TState) (prog : EndProg)
     (rest : List EndProg) (ts : List Tok5) (mt early : Bool) (hp : st.endProgs = prog :: rest) (hnb : st.inBraces = false)
     (hI : OInv hw st) (hft : FT lines st) (h : endProgStep E P st prog = .ok (ts, st', mt, early)) :
     MidOK lines ts ∧ FT lines st' := by
@@ -172,7 +260,7 @@ theorem endProgStep_ft (lines : List (List Nat)) (E : Env) (P : Pats) (hF : Fstr
     · cases h
     · rename_i ts0 s0 m0 hf
       injection h with h; injection h with h1 h; injection h with h2 h; subst h1; subst h2
-      exact handleFstringProgs_ft lines E P hF hw st _ _ _ hI hft hf
+      exact handleFstringProgs_ft lines E P hF hE hw st _ _ _ hI hft hf
   · rename_i hnmc
     split at h
     · cases h
@@ -191,7 +279,7 @@ theorem endProgStep_ft (lines : List (List Nat)) (E : Env) (P : Pats) (hF : Fstr
       · intro t ht
         simp only [List.mem_singleton] at ht
         subst ht
-        unfold TState.progToken; rw [hp]; simp
+        unfold TState.progToken; rw [hp]; simp [FsTy]
       · intro q more hq hqb
         have hend : ((st.progToken e .STRING).2.popMode none).endProgs = rest := by
           apply popMode_endProgs_none _ { prog with text := prog.text ++ slice st.line st.pos e } rest
@@ -238,7 +326,7 @@ theorem endProgFinish_ft (lines : List (List Nat)) (ts ts' : List Tok5) (s s' : 
           · cases h
           · injection h with h; injection h with h1 h2; subst h2; exact hft
 
-theorem handleEndProgs_ft (lines : List (List Nat)) (E : Env) (P : Pats) (hF : FstrLen P) (hw : Pos) (st st' : TState) (ts : List Tok5)
+theorem handleEndProgs_ft (lines : List (List Nat)) (E : Env) (P : Pats) (hF : FstrLen P) (hE : FstrEnds P) (hw : Pos) (st st' : TState) (ts : List Tok5)
     (hI : OInv hw st) (hft : FT lines st) (h : handleEndProgs E P st = .ok (ts, st')) :
     MidOK lines ts ∧ FT lines st' := by
   unfold handleEndProgs at h
@@ -253,7 +341,7 @@ theorem handleEndProgs_ft (lines : List (List Nat)) (E : Env) (P : Pats) (hF : F
         split at h
         · cases h
         · rename_i ts1 s1 m1 e1 hstep
-          obtain ⟨a, b⟩ := endProgStep_ft lines E P hF hw st s1 prog rest ts1 m1 e1 hp (by simpa using hnb) hI hft hstep
+          obtain ⟨a, b⟩ := endProgStep_ft lines E P hF hE hw st s1 prog rest ts1 m1 e1 hp (by simpa using hnb) hI hft hstep
           have hts : ts = ts1 := by
             unfold endProgFinish at h
             split at h
@@ -341,18 +429,18 @@ theorem specialAction_ft (lines : List (List Nat)) (st : TState) (start e : Nat)
       · exact hsame _ rfl
 
 set_option hygiene false in
-macro "ft_ok" : tactic => `(tactic| (injection h with h; injection h with h1 h2; subst h1; subst h2; exact ⟨by simp [mkTok], FT.same hl hB rfl⟩))
+macro "ft_ok" : tactic => `(tactic| (injection h with h; injection h with h1 h2; subst h1; subst h2; exact ⟨(by intro t ht hf; injection ht with ht; subst ht; simp [FsTy, mkTok] at hf), FT.same hl hB rfl⟩))
 
 theorem pseudoAction_ft (lines : List (List Nat)) (st st' : TState) (group : String) (start e : Nat) (tok : Option Tok5)
     (hsh : Shape st.endProgs) (hB : TopB st) (hl : LineOK lines st) (hse : start ≤ e) (hpos : st.pos = e)
     (h : pseudoAction st group start e = .ok (tok, st')) :
-    (∀ t, tok = some t → t.ty ≠ .FSTRING_MIDDLE) ∧ FT lines st' := by
+    (∀ t, tok = some t → FsTy t → TokSrc lines t) ∧ FT lines st' := by
   have hemax : e ≤ st.max := by rw [← hpos]; exact hl.pos
   unfold pseudoAction at h
   split at h
   · split at h
     · injection h with h; injection h with h1 h2; subst h1; subst h2
-      refine ⟨by simp [mkTok], ⟨⟨hl.one, hl.cur, hl.max, hl.pos⟩, ?_⟩⟩
+      refine ⟨(by intro t ht hf; injection ht with ht; subst ht; simp [FsTy, mkTok] at hf), ⟨⟨hl.one, hl.cur, hl.max, hl.pos⟩, ?_⟩⟩
       intro q more hq _
       simp only [TState.addProg, List.cons.injEq] at hq
       obtain ⟨hq1, _⟩ := hq
@@ -360,7 +448,7 @@ theorem pseudoAction_ft (lines : List (List Nat)) (st st' : TState) (group : Str
       simp only [cur, TState.addProg, hpos]
       exact addProg_text lines st e e _ _ _ hl (Nat.le_refl _) hemax
     · injection h with h; injection h with h1 h2; subst h1; subst h2
-      refine ⟨by simp, ⟨⟨hl.one, hl.cur, hl.max, hl.pos⟩, ?_⟩⟩
+      refine ⟨(by intro t ht; cases ht), ⟨⟨hl.one, hl.cur, hl.max, hl.pos⟩, ?_⟩⟩
       intro q more hq _
       simp only [TState.addProg, List.cons.injEq] at hq
       obtain ⟨hq1, _⟩ := hq
@@ -380,25 +468,29 @@ theorem pseudoAction_ft (lines : List (List Nat)) (st st' : TState) (group : Str
             · split at h
               · injection h with h; injection h with h1 h2; subst h1; subst h2
                 refine ⟨?_, FT.same hl hB rfl⟩
-                intro t ht; injection ht with ht; subst ht
-                simp only [mkTok]; split <;> simp
+                intro t ht hf; injection ht with ht; subst ht
+                exfalso
+                simp only [FsTy, mkTok] at hf
+                split at hf <;> simp at hf
               · split at h
                 · injection h with h; injection h with h1 h2; subst h1; subst h2
-                  exact ⟨by simp [mkTok], specialAction_ft lines st start e hsh hB hl hpos⟩
+                  refine ⟨?_, specialAction_ft lines st start e hsh hB hl hpos⟩
+                  intro t ht _; injection ht with ht; subst ht
+                  exact slice_src lines st start e hl hse hemax
                 · split at h
                   · injection h with h; injection h with h1 h2; subst h1; subst h2
-                    exact ⟨by simp, FT.same (s := { st with continued := true }) ⟨hl.one, hl.cur, hl.max, hl.pos⟩ hB rfl⟩
+                    exact ⟨(by intro t ht; cases ht), FT.same (s := { st with continued := true }) ⟨hl.one, hl.cur, hl.max, hl.pos⟩ hB rfl⟩
                   · cases h
 
 
 theorem nextPseudoMatches_ft (lines : List (List Nat)) (E : Env) (P : Pats) (hw : Pos) (st st' : TState) (tok : Option Tok5)
     (hI : OInv hw st) (hft : FT lines st) (hpre : TopB st ∨ st.pos = st.max ∨ st.inMiddle = true)
     (h : nextPseudoMatches E P st = .ok (tok, st')) :
-    (∀ t, tok = some t → t.ty ≠ .FSTRING_MIDDLE) ∧ FT lines st' := by
+    (∀ t, tok = some t → FsTy t → TokSrc lines t) ∧ FT lines st' := by
   unfold nextPseudoMatches at h
   split at h
   · injection h with h; injection h with h1 h2; subst h1; subst h2
-    exact ⟨by simp, hft⟩
+    exact ⟨(by intro t ht; cases ht), hft⟩
   · rename_i hno
     simp only [Bool.or_eq_true, decide_eq_true_eq, not_or] at hno
     have hB : TopB st := by
@@ -409,7 +501,7 @@ theorem nextPseudoMatches_ft (lines : List (List Nat)) (E : Env) (P : Pats) (hw 
     split at h
     · cases h
     · injection h with h; injection h with h1 h2; subst h1; subst h2
-      exact ⟨by simp, hft⟩
+      exact ⟨(by intro t ht; cases ht), hft⟩
     · rename_i group e hm
       have hge := matchBranches_ge _ _ _ _ _ _ _ hm
       have hbd : e ≤ st.max := by rw [hft.line.max]; exact matchBranches_le _ _ _ _ _ _ _ (by rw [← hft.line.max]; exact hft.line.pos) hm
@@ -417,7 +509,7 @@ theorem nextPseudoMatches_ft (lines : List (List Nat)) (E : Env) (P : Pats) (hw 
         ⟨hft.line.one, hft.line.cur, hft.line.max, hbd⟩ hge rfl h
 
 /-- the scan loop of one line: FSTRING_MIDDLE tokens are source slices -/
-theorem scanLine_ft (lines : List (List Nat)) (E : Env) (P : Pats) (hP : PseudoProgress P) (hF : FstrLen P) :
+theorem scanLine_ft (lines : List (List Nat)) (E : Env) (P : Pats) (hP : PseudoProgress P) (hF : FstrLen P) (hE : FstrEnds P) :
     ∀ (fuel : Nat) (hw : Pos) (st st' : TState) (acc acc' : List Tok5),
       OInv hw st → FT lines st → MidOK lines acc →
       scanLine E P fuel st acc = .ok (st', acc') →
@@ -438,7 +530,7 @@ theorem scanLine_ft (lines : List (List Nat)) (E : Env) (P : Pats) (hP : PseudoP
         obtain ⟨a1, b1⟩ := handleEndProgs_adv E P st st1 ts1 hmax hle h1
         have hmax1 : st1.max = st1.line.size := by rw [a1.max, a1.line]; exact hmax
         obtain ⟨hw1, _, i1, post1⟩ := handleEndProgs_ord E P hF hw st st1 ts1 hle hI h1
-        obtain ⟨m1, f1⟩ := handleEndProgs_ft lines E P hF hw st st1 ts1 hI hft h1
+        obtain ⟨m1, f1⟩ := handleEndProgs_ft lines E P hF hE hw st st1 ts1 hI hft h1
         have hpre : TopB st1 ∨ st1.pos = st1.max ∨ st1.inMiddle = true := by
           rcases post1 with x | x | x
           · exact Or.inl x
@@ -470,14 +562,14 @@ theorem scanLine_ft (lines : List (List Nat)) (E : Env) (P : Pats) (hP : PseudoP
             refine ih ⟨st2.lnum, st2.pos + 1⟩ { st2 with pos := st2.pos + 1 } st' _ acc' ?_ ?_ ?_ h
             · exact OInv.same i2.shape hB2 rfl (Pos.le_refl' _)
             · exact FT.same ⟨f2.line.one, f2.line.cur, f2.line.max, by show st2.pos + 1 ≤ st2.max; have := a1.max; have := a2.max; omega⟩ hB2 rfl
-            · exact MidOK.emit_then (MidOK.append hacc m1) (by simp)
+            · exact MidOK.emit_then (MidOK.append hacc m1) (by intro hf; simp [FsTy] at hf)
           · exact ih hw2 st2 st' _ acc' i2 f2 (MidOK.append hacc m1) h
     · rename_i hnlt
       injection h with h; injection h with h1 h2; subst h1; subst h2
       exact ⟨hacc, hft, by omega, hw, hI⟩
 
 
-def NoMid (ts : List Tok5) : Prop := ∀ t ∈ ts, t.ty ≠ .FSTRING_MIDDLE
+def NoMid (ts : List Tok5) : Prop := ∀ t ∈ ts, ¬ FsTy t
 
 theorem dedents_noMid (col lnum pos : Nat) (line : List Nat) : ∀ (fuel : Nat) (ind : List Nat) (acc : List Tok5) (ind' : List Nat) (acc' : List Tok5),
     NoMid acc → dedents col lnum pos line fuel ind acc = .ok (ind', acc') → NoMid acc'
@@ -494,7 +586,7 @@ theorem dedents_noMid (col lnum pos : Nat) (line : List Nat) : ∀ (fuel : Nat) 
           intro t ht
           rcases List.mem_append.mp ht with h1 | h1
           · exact ha t h1
-          · simp only [List.mem_singleton] at h1; subst h1; simp
+          · simp only [List.mem_singleton] at h1; subst h1; simp [FsTy]
       · injection h with h; injection h with _ h2; subst h2; exact ha
 
 theorem nextStatement_noMid (P : Pats) (st st' : TState) (ts : List Tok5) (a : StmtAction)
@@ -512,11 +604,11 @@ theorem nextStatement_noMid (P : Pats) (st st' : TState) (ts : List Tok5) (a : S
         · injection h with h; injection h with h0 h; subst h0
           intro t ht
           simp only [List.mem_cons, List.mem_singleton, List.not_mem_nil, or_false] at ht
-          rcases ht with ht | ht <;> (subst ht; simp)
+          rcases ht with ht | ht <;> (subst ht; simp [FsTy])
         · injection h with h; injection h with h0 h; subst h0
           intro t ht
           simp only [List.mem_singleton] at ht
-          subst ht; simp
+          subst ht; simp [FsTy]
       · split at h
         · cases h
         · rename_i ind2 toks2 hd
@@ -524,7 +616,7 @@ theorem nextStatement_noMid (P : Pats) (st st' : TState) (ts : List Tok5) (a : S
           refine dedents_noMid _ _ _ _ _ _ _ _ _ ?_ hd
           intro t ht
           split at ht
-          · simp only [List.mem_singleton] at ht; subst ht; simp
+          · simp only [List.mem_singleton] at ht; subst ht; simp [FsTy]
           · cases ht
 
 theorem nextEndTokens_noMid (ll : List Nat) (lc : Bool) (st : TState) : NoMid (nextEndTokens ll lc st) := by
@@ -534,11 +626,11 @@ theorem nextEndTokens_noMid (ll : List Nat) (lc : Bool) (st : TState) : NoMid (n
   rcases ht with (ht | ht) | ht
   · split at ht
     · split at ht
-      · simp only [List.mem_singleton] at ht; subst ht; simp
+      · simp only [List.mem_singleton] at ht; subst ht; simp [FsTy]
       · cases ht
     · cases ht
-  · obtain ⟨_, _, rfl⟩ := ht; simp
-  · subst ht; simp
+  · obtain ⟨_, _, rfl⟩ := ht; simp [FsTy]
+  · subst ht; simp [FsTy]
 
 /-- between two lines: a literal-accumulating prog on top holds the source up to the start of the next line -/
 def BT (lines : List (List Nat)) (st : TState) : Prop :=
@@ -562,7 +654,7 @@ theorem ft_of_bt (lines : List (List Nat)) (st : TState) (l : List Nat) (hb : BT
   · intro p rest hp hm
     exact hb p rest hp hm
 
-theorem lineHead_ft (lines : List (List Nat)) (E : Env) (P : Pats) (hF : FstrLen P) (hw : Pos) (st s : TState) (ts : List Tok5) (cont brk : Bool)
+theorem lineHead_ft (lines : List (List Nat)) (E : Env) (P : Pats) (hF : FstrLen P) (hE : FstrEnds P) (hw : Pos) (st s : TState) (ts : List Tok5) (cont brk : Bool)
     (hI : OInv hw st) (hft : FT lines st) (h : lineHead E P st = .ok (s, ts, cont, brk)) :
     MidOK lines ts ∧ (cont = false → brk = false → FT lines s) ∧ (cont = true → s.endProgs = []) := by
   have hspec := lineHead_spec E P st s ts cont brk hft.line.max hft.line.pos h
@@ -578,7 +670,7 @@ theorem lineHead_ft (lines : List (List Nat)) (E : Env) (P : Pats) (hF : FstrLen
       injection h with h; injection h with h1 h; injection h with h2 h; injection h with h3 h4
       subst h1; subst h2; subst h3; subst h4
       have hft0 : FT lines { st with continued := false } := ⟨⟨hft.line.one, hft.line.cur, hft.line.max, hft.line.pos⟩, hft.top⟩
-      obtain ⟨a, b⟩ := handleEndProgs_ft lines E P hF hw _ _ _ (show OInv hw { st with continued := false } from hI) hft0 h0
+      obtain ⟨a, b⟩ := handleEndProgs_ft lines E P hF hE hw _ _ _ (show OInv hw { st with continued := false } from hI) hft0 h0
       exact ⟨a, fun _ _ => b, (by intro hc; cases hc)⟩
   · rename_i hemp
     have hnil : st.endProgs = [] := by simpa using hemp
@@ -608,7 +700,7 @@ theorem lineHead_ft (lines : List (List Nat)) (E : Env) (P : Pats) (hF : FstrLen
         intro p rest hp; simp only [hnil] at hp; cases hp
 
 /-- the whole line loop: every FSTRING_MIDDLE token it ever emits is the source slice between its coordinates -/
-theorem tokenizeLines_ft (lines : List (List Nat)) (E : Env) (P : Pats) (hP : PseudoProgress P) (hF : FstrLen P) :
+theorem tokenizeLines_ft (lines : List (List Nat)) (E : Env) (P : Pats) (hP : PseudoProgress P) (hF : FstrLen P) (hE : FstrEnds P) :
     ∀ (fuel : Nat) (rest : List (List Nat)) (st : TState) (acc out : List Tok5) (hw : Pos),
       st.max = st.line.size → OI hw st.endProgs ⟨st.lnum, st.max⟩ → BT lines st → rest = lines.drop st.lnum → MidOK lines acc →
       tokenizeLines E P fuel rest st acc = .ok out → MidOK lines out := by
@@ -652,7 +744,7 @@ theorem tokenizeLines_ft (lines : List (List Nat)) (E : Env) (P : Pats) (hP : Ps
             exact this.symm
           have hft0 := ft_of_bt lines st l hb hll
           have hI0' : OInv hw (st.moveNextLine l) := OI.mono hI (Pos.le_next _ _ _)
-          obtain ⟨hts, hgo, hcnil⟩ := lineHead_ft lines E P hF hw _ s ts cont brk hI0' hft0 hh
+          obtain ⟨hts, hgo, hcnil⟩ := lineHead_ft lines E P hF hE hw _ s ts cont brk hI0' hft0 hh
           split at h
           · rename_i hc
             have hbs : BT lines s := by intro p r hp; rw [hcnil hc] at hp; cases hp
@@ -663,7 +755,7 @@ theorem tokenizeLines_ft (lines : List (List Nat)) (E : Env) (P : Pats) (hP : Ps
             · cases h
             · rename_i s2 acc2 hs
               have hfts := hgo hnc' hnb'
-              obtain ⟨hacc2, hft2, hend2, hw2, i2⟩ := scanLine_ft lines E P hP hF _ hw' s s2 _ acc2 (hpro hnb' hnc') hfts (MidOK.append hacc hts) hs
+              obtain ⟨hacc2, hft2, hend2, hw2, i2⟩ := scanLine_ft lines E P hP hF hE _ hw' s s2 _ acc2 (hpro hnb' hnc') hfts (MidOK.append hacc hts) hs
               obtain ⟨hk1, _⟩ := scanLine_keeps E P hP _ s _ s2 acc2 hfts.line.max hfts.line.pos hs
               exact ih rest' s2 _ out hw2 hft2.line.max (OI.mono i2 (cur_le_col s2 s2.max hft2.line.pos)) (bt_of_ft lines s2 hft2 hend2)
                 (by rw [hk1, hl']; exact hrest') hacc2 h
